@@ -903,6 +903,25 @@ pub fn scenarios(p: &SParams, directed: bool) -> Vec<Scenario> {
                     }
                 }
             }
+            "2x1i" => {
+                // isolate (locks the node and all its neighbours) against every other single call
+                for u in 0..p.n as K {
+                    let a = Call::Mut(Op::Isolate(u));
+                    for b in m1.iter().chain(q.iter()) {
+                        out.push(Scenario { n: p.n, init: init.clone(), addr_order: vec![], threads: vec![vec![a], vec![*b]] });
+                    }
+                }
+            }
+            "q1m2" => {
+                // one query / traversal against two consecutive mutations
+                for a in &q {
+                    for b1 in &m0 {
+                        for b2 in &m1 {
+                            out.push(Scenario { n: p.n, init: init.clone(), addr_order: vec![], threads: vec![vec![*a], vec![*b1, *b2]] });
+                        }
+                    }
+                }
+            }
             other => panic!("GDSL_MC_HARNESS: unknown scenario shape {}", other),
         }
     }
@@ -914,7 +933,7 @@ pub fn scenarios(p: &SParams, directed: bool) -> Vec<Scenario> {
             let mut s2 = sc.clone();
             s2.addr_order = pm.clone();
             // scenarios equal up to renaming of the nodes are generated once
-            if p.shape == "12m" && !is_canonical(&s2) {
+            if (p.shape == "12m" || p.shape == "q1m2") && !is_canonical(&s2) {
                 continue;
             }
             all.push(s2);
